@@ -1,7 +1,9 @@
 package main
 
 import (
+	"cmp"
 	"fmt"
+	"math"
 
 	"github.com/emirpasic/gods/v2/maps/treebidimap"
 	"github.com/emirpasic/gods/v2/maps/treemap"
@@ -13,7 +15,19 @@ import (
 func keyCmp(name string) func(a, b Key) int {
 	switch name {
 	case "rev":
-		return func(a, b Key) int { return int(int64(b.C) - int64(a.C)) } // arbitrary magnitude: only the sign may matter
+		// reversed and un-normalised: magnitudes 1, 200, 256, 2^40 depending on the operands — only the
+		// sign may matter (200 and 256 flip sign / vanish when narrowed to int8, 2^40 when narrowed to int32)
+		mags := []int{1, 200, 256, 1 << 40}
+		return func(a, b Key) int {
+			m := mags[int(uint64(a.C/Rank(prepStep)+b.C/Rank(prepStep))%4)]
+			switch {
+			case a.C < b.C:
+				return m
+			case a.C > b.C:
+				return -m
+			}
+			return 0
+		}
 	default: // nat, coarse (coarse = many representatives R per class C)
 		return func(a, b Key) int {
 			switch {
@@ -62,7 +76,34 @@ func intRange(lo, hi int) []int {
 
 var kvProps = []string{"C01", "C02", "C07", "C10", "C15", "C09"}
 
+// floatDefaultSys: the default constructors with float64 keys, NaN included — under cmp.Compare NaN
+// is an ordinary key (the least one, equal to itself).
+func floatDefaultSys(j Job) Sys {
+	kind, order := j.s("c", "rbt"), j.p("m", 3)
+	ku := []float64{math.NaN(), -1.5, 0, 2.25, math.Inf(1)}
+	sys := &KVSys[float64, Val]{Kind: kind, Order: order, CmpN: "nat", N: len(ku), KU: ku, Label: "/New()/float64",
+		Fresh: func(i int) Val { return Val(i) }, KCmp: cmp.Compare[float64], VCmp: func(a, b Val) int { return int(a - b) }, PropsL: kvProps,
+		Probes: func(live []float64) []float64 { return []float64{-7, 1, math.Inf(-1)} }}
+	sys.Custom = func(b *kvBox[float64, Val]) *kvAPI[float64, Val] {
+		switch kind {
+		case "rbt":
+			return wrapRBT(redblacktree.New[float64, Val]())
+		case "avl":
+			return wrapAVL(avltree.New[float64, Val]())
+		case "btree":
+			return wrapBT(btree.New[float64, Val](order), order)
+		case "treemap":
+			return wrapTreeMap(treemap.New[float64, Val]())
+		}
+		panic("tool error: no float default constructor job for " + kind)
+	}
+	return sys
+}
+
 func kvSysFromJob(j Job) Sys {
+	if j.s("elem", "") == "float" && j.s("ctor", "") == "default" {
+		return floatDefaultSys(j)
+	}
 	kind := j.s("c", "rbt")
 	cmpN, vcmpN := j.s("cmp", "nat"), j.s("vcmp", "nat")
 	if j.p("rank", 0) == 1 {
